@@ -62,6 +62,11 @@ type Case struct {
 	// basic, age, changelog; a name may occur more than once, the last result counts). Empty = the default order.
 	// The Reference has no variable a request could leave anything in: any order must give the same five results.
 	Order []string `json:"order"`
+	// Decoy: before the summaries of the parsed list are requested, the SAME slice (same backing array, same length) has
+	// held another commit list - the same commits with authors, dates and paths altered - whose summaries were requested
+	// too; the list is then overwritten in place. A program that fixes author spellings in its list and summarises again
+	// does exactly this. The Reference has no variable an earlier list could leave anything in.
+	Decoy bool `json:"decoy"`
 }
 
 type ChangeFact struct {
@@ -525,7 +530,31 @@ func one(raw json.RawMessage) interface{} {
 		}
 		rec.Observed.Commits = append(rec.Observed.Commits, co)
 	}
-	p, msg := lib.Guard(func() { summaries(&rec.Observed, msgs, append([]string{}, c.Order...)) })
+	p, msg := lib.Guard(func() {
+		if c.Decoy && len(msgs) > 0 {
+			real := make([]cocagit.CommitMessage, len(msgs))
+			for i := range msgs {
+				real[i] = msgs[i]
+				real[i].Changes = append([]cocagit.FileChange{}, msgs[i].Changes...)
+			}
+			for i := range msgs { // the decoy: other authors, other days, other paths, in the very same slice
+				msgs[i].Author = "Decoy " + msgs[(i+1)%len(msgs)].Author
+				msgs[i].Date = "2001-02-03"
+				ch := make([]cocagit.FileChange, len(msgs[i].Changes))
+				for j, x := range msgs[i].Changes {
+					x.File = "decoy/" + x.File
+					ch[j] = x
+				}
+				msgs[i].Changes = ch
+			}
+			var scratchObs Obs
+			summaries(&scratchObs, msgs, append([]string{}, c.Order...))
+			for i := range msgs {
+				msgs[i] = real[i]
+			}
+		}
+		summaries(&rec.Observed, msgs, append([]string{}, c.Order...))
+	})
 	if p {
 		commits := rec.Observed.Commits
 		rec.Observed = emptyObs()
